@@ -41,7 +41,7 @@ import (
 
 // A shape is a serialised AST whose words are holes:
 //
-//	@N command/function name   @A argument   @S assignment   @P case pattern
+//	@N command/function name   @M command name after an assignment   @A argument   @S assignment   @P case pattern
 //	@V for variable            @C case subject               @D @O @T redirection fd, operator, target
 type c11Enum struct {
 	memo    map[string][][]string
@@ -125,7 +125,10 @@ func (e *c11Enum) simple(n int) []string {
 				first := true
 				for _, k := range seq {
 					if k == 'W' {
-						if first {
+						if first && a > 0 {
+							s += " W @M"
+							first = false
+						} else if first {
 							s += " W @N"
 							first = false
 						} else {
@@ -374,6 +377,9 @@ func (g *c11Gen) simple() string {
 	for i := 0; i < m; i++ {
 		if g.r.Chance(22) {
 			s += " R " + c11RedirHole
+		} else if first && a > 0 {
+			s += " W @M"
+			first = false
 		} else if first {
 			s += " W @N"
 			first = false
@@ -508,9 +514,9 @@ func (g *c11Gen) clist(d int) string {
 
 var c11Names = []string{"echo", "${ECHO}", "\"my cmd\"", "$$cmd", ":", "true", "'x y'", "./configure", "[", "${TOOLS_PLATFORM.sed}", "cd", "test", "exit", "read"}
 var c11Keywords = []string{"if", "then", "elif", "else", "fi", "for", "while", "until", "do", "done", "in", "case", "esac", "{", "}", "!"}
-var c11Args = []string{"arg", "\"a b\"", "'c d'", "$$var", "$${var}", "${MAKEVAR}", "\"$$x\"", "${VAR:Q}", "-o", "--", "1", "a=b", "*.c", "$$@", "\"$${x:-default}\"", "'a;b'", "\"|\"", "x\\ y", "${WRKSRC}/file", "-"}
+var c11Args = []string{"${X}#y", "a#b", "\"q\"#r", "arg", "\"a b\"", "'c d'", "$$var", "$${var}", "${MAKEVAR}", "\"$$x\"", "${VAR:Q}", "-o", "--", "1", "a=b", "*.c", "$$@", "\"$${x:-default}\"", "'a;b'", "\"|\"", "x\\ y", "${WRKSRC}/file", "-"}
 var c11Assigns = []string{"VAR=x", "A=", "_x1=\"a b\"", "V=$$v", "PATH=${PREFIX}/bin:$$PATH", "i=1"}
-var c11Patterns = []string{"a", "*", "*.c", "\"x\"", "$$pat", "${P}", "[0-9]*", "-*", "yes", "'no'"}
+var c11Patterns = []string{"if", "then", "do", "done", "fi", "for", "in", "{", "}", "!", "b=c", "x=", "a", "*", "*.c", "\"x\"", "$$pat", "${P}", "[0-9]*", "-*", "yes", "'no'"}
 var c11ForVars = []string{"i", "var", "f_1", "in", "do", "x"}
 var c11Subjects = []string{"$$x", "\"$$1\"", "${OPSYS}", "x", "in", "if", "esac", "\"$${a}-$${b}\""}
 var c11Fds = []string{"-", "-", "-", "2", "1", "0", "10"}
@@ -535,6 +541,8 @@ func c11Fill(shape string, r *Rng, canonical bool) string {
 		switch f[1] {
 		case 'N':
 			fs[i] = hx(pick("echo", c11Names))
+		case 'M':
+			fs[i] = hx(pick("echo", c11Names, c11Names, c11Keywords))
 		case 'A':
 			fs[i] = hx(pick("arg", c11Args, c11Args, c11Keywords, c11Names))
 		case 'S':
@@ -1572,6 +1580,9 @@ func c11Corpus() []string {
 		// > out in x      2>& 1 do x
 		"CL Q1 A1 0 P1 CS 0 3 R - gt " + w("out") + " W " + w("in") + " W " + w("x") + " N",
 		"CL Q1 A1 0 P1 CS 0 3 R " + w("2") + " gtand " + w("1") + " W " + w("do") + " W " + w("x") + " N",
+		// case $$x in a ) ;; if ) echo ;; esac        if echo ${X}#y ; then : ; fi
+		"CL Q1 A1 0 P1 CC KC " + w("$$x") + " IC 0 " + w("a") + " 0 BN IC 0 " + w("if") + " 0 BS " + "CL Q1 A1 0 P1 CS 0 1 W " + w("echo") + " N" + " IN 0 N",
+		"CL Q1 A1 0 P1 CC KI CL Q1 A1 0 P1 CS 0 2 W " + w("echo") + " W " + w("${X}#y") + " S CL Q1 A1 0 P1 CS 0 1 W " + w(":") + " S EN 0 N",
 		// VAR=x fi
 		"CL Q1 A1 0 P1 CS 1 " + w("VAR=x") + " 1 W " + w("fi") + " N",
 		// for f in a b ; do case $$x in a ) echo a ;; esac done
@@ -1712,7 +1723,7 @@ func c11Lap(what string) {
 }
 
 func runC11(ctx *Ctx) *Result {
-	res := &Result{Rule: "programs = ASTs of Spec/PosixSh.v printed by the extracted printer: every AST shape with <= N tokens (N=6 quick, 7 thorough) with canonical words, every shape with N+1 tokens over the reduced operator set (`;` `&&`, no `!`, no until) and those with N+2 tokens (a sample of 4000 in quick), word variants of a sample of shapes (plain, quoted, $$var, ${MAKEVAR}, reserved words in argument position, assignment-shaped arguments, io-numbers), random ASTs up to depth 3 (quick) / 4 (thorough); only programs accepted by both sh -n and bash -n count; non-trivial = valid program with at least one compound command or function definition, distinct by program text"}
+	res := &Result{Rule: "programs = ASTs of Spec/PosixSh.v printed by the extracted printer: every AST shape with <= N tokens (N=6 quick, 7 thorough) with canonical words, every shape with N+1 tokens over the reduced operator set (`;` `&&`, no `!`, no until) and those with N+2 tokens (a sample of 4000 in quick), word variants of a sample of shapes (plain, quoted, $$var, ${MAKEVAR}, reserved words in argument position, as command name after an assignment and as case pattern, assignment-shaped arguments and patterns, words with an inner #, io-numbers), random ASTs up to depth 3 (quick) / 4 (thorough); only programs accepted by both sh -n and bash -n count; non-trivial = valid program with at least one compound command or function definition, distinct by program text"}
 	rng := NewRng(ctx.Seed)
 	thorough := ctx.Tier == "thorough"
 
